@@ -403,6 +403,7 @@ func c34RunCase(c *mc.Ctx, s c34Spec) {
 		where1 += ", power loss: un-checkpointed primary data writes lost"
 	}
 	seen := map[uint64]bool{}
+	interrupted := 0 // number of startups that were crashed on the way to the state being judged
 	judge := func(img *vos.FS, where, phase string) {
 		h := fsHash(img)
 		if seen[h] {
@@ -454,11 +455,11 @@ func c34RunCase(c *mc.Ctx, s c34Spec) {
 				}
 			}
 			if len(dupReq) > 0 {
-				n := "1"
-				if len(dupReq) > 1 {
-					n = ">=2"
+				n := "at-most-one-per-interrupted-recovery"
+				if len(dupReq) > interrupted {
+					n = "more-than-one-per-interrupted-recovery"
 				}
-				c.Violate("replayed-twice|variable|requests="+n, fmt.Sprintf("%s [%s]: after the closing startup the records of %d write request(s) are stored more than once (%s)", where, phase, len(dupReq), fmtState(st.tables)))
+				c.Violate("replayed-twice|variable|"+n, fmt.Sprintf("%s [%s]: after the closing startup the records of %d write request(s) are stored more than once, %d startup(s) were interrupted before (%s)", where, phase, len(dupReq), interrupted, fmtState(st.tables)))
 				c.Outcome("replayed-twice")
 			}
 		}
@@ -512,6 +513,7 @@ func c34RunCase(c *mc.Ctx, s c34Spec) {
 		ph := c34PhaseOf(st.log, k)
 		w2 := fmt.Sprintf("%s, then a startup crashed after its device op %d/%d (%s %s)", where1, k, len(st.log), st.log[k-1].Kind, strings.TrimPrefix(st.log[k-1].Path, world.Root+"/"))
 		cl := img2.Clone()
+		interrupted = 1
 		judge(cl, w2, ph)
 		if c.Thorough() {
 			level2 = append(level2, l2{cl, w2})
@@ -526,6 +528,7 @@ func c34RunCase(c *mc.Ctx, s c34Spec) {
 			if st3.log[k-1].Kind == vos.OpMark || st3.log[k-1].Kind == vos.OpFsync {
 				continue
 			}
+			interrupted = 2
 			judge(img3.Clone(), fmt.Sprintf("%s, then another startup crashed after its device op %d/%d", s2.where, k, len(st3.log)), "second-"+c34PhaseOf(st3.log, k))
 		}
 	}
